@@ -47,7 +47,9 @@ pub fn show_sql_value(v: &DataType) -> String {
 
 pub fn classify_err(msg: &str) -> String {
     let m = msg.to_lowercase();
-    let class = if m.contains("parse error") {
+    let class = if m.contains("out of memory") {
+        "oom"
+    } else if m.contains("parse error") {
         "parse"
     } else if m.contains("binder error") {
         "bind"
@@ -78,10 +80,44 @@ pub fn show_result(r: &QueryResult, sorted: bool) -> String {
     }
 }
 
+/// `sql <cfg>[;<cfg>]* | actions`: with several configurations the same actions run once per configuration; the
+/// answers of the first one are printed, and the first answer on which another configuration differs is replaced by
+/// `cfgdiff{<cfg>=><answer> || <cfg>=><answer>}`.  A configuration that answered `err:oom` is left out from there on.
 pub fn run_line(line: &str) -> String {
+    let head = line.split(" | ").next().unwrap();
+    let cfgs: Vec<&str> = head.split_whitespace().nth(1).unwrap_or("").split(';').collect();
+    if cfgs.len() <= 1 {
+        return run_with_cfg(line, cfgs.first().copied().unwrap_or(""));
+    }
+    let outs: Vec<Vec<String>> = cfgs.iter().map(|c| run_with_cfg(line, c).split(" | ").map(|s| s.to_string()).collect()).collect();
+    let mut res = outs[0].clone();
+    let mut alive: Vec<bool> = vec![true; cfgs.len()];
+    for i in 0..res.len() {
+        for j in 0..cfgs.len() {
+            if !alive[j] { continue; }
+            let seg = outs[j].get(i).cloned().unwrap_or_else(|| "missing".into());
+            if seg == "err:oom" { alive[j] = false; continue; }
+        }
+        if !alive[0] {
+            // the first configuration ran out of cache: report the answers of the first one still alive
+            if let Some(j) = (0..cfgs.len()).find(|&j| alive[j]) { res[i] = outs[j].get(i).cloned().unwrap_or_else(|| "missing".into()); }
+        }
+        let base = (0..cfgs.len()).find(|&j| alive[j]);
+        if let Some(b) = base {
+            for j in 0..cfgs.len() {
+                if alive[j] && outs[j].get(i) != outs[b].get(i) {
+                    res[i] = format!("cfgdiff{{{}=>{} || {}=>{}}}", cfgs[b], outs[b].get(i).cloned().unwrap_or_default(), cfgs[j], outs[j].get(i).cloned().unwrap_or_default());
+                    return res[..=i].join(" | ");
+                }
+            }
+        }
+    }
+    res.join(" | ")
+}
+
+fn run_with_cfg(line: &str, cfg_s: &str) -> String {
     let mut parts = line.split(" | ");
-    let head = parts.next().unwrap();
-    let cfg_s = head.split_whitespace().nth(1).unwrap_or("");
+    let _head = parts.next().unwrap();
     let dir = crate::wal::scratch_dir("sql");
     let path = dir.join("db.axm");
     let mut db = Some(Database::create(&path, parse_cfg(cfg_s)).expect("create db"));
